@@ -58,6 +58,18 @@ CHECKS = {
     "C16": ("TLC trace validation against C16 (BandExtent, LeftmostAtZero, MidpointsCoincide, RightEndsCoincide)",
             "Exact arithmetic identities of the two simple positioners evaluated by TLC on every band (helper nodes included) of every connected input of the families x widths x NodeSpacing. " + TRACE,
             "Connected inputs with virtual-node output (as stated).", "8/C16"),
+    "C15": ("TLC exhaustive interleaving check of Monitor.tla's concurrent configuration over the shared-state table extracted from the code (go/types), plus TLC trace validation of concurrent runs against the sequential reference (SequentialEquivalent) under the Go race detector",
+            "Static: every package-level variable and every write to it is extracted from the non-test sources and becomes the constant ExtraShared of Monitor.tla; TLC explores all interleavings of 3-4 processes inside Layout (NoRace, Scoped, CleanWhenIdle) and, as a non-vacuity check, finds the race that exists when monitors are supplied. Dynamic: the driver built with -race runs each case alone and then under 2/8/64 goroutines x GOMAXPROCS 1/4/16; every concurrent result must be bit-exactly equal to the sequential one (TLC, AutogApi C15) and any race-detector report is a violation. " + TRACE,
+            "A model-only race is a candidate, the verdict comes from the dynamic run (rule 2). The race detector sees the schedules that ran, not all schedules.", "8/C15"),
+    "C18": ("TLC model check of Monitor.tla (all call histories up to the bound: Scoped, CleanWhenIdle, Complete), TLC-generated histories replayed on the real Layout and validated by MonitorTrace.tla (spec -> code -> spec), plus trace validation of MonitorTransparent",
+            "TLC enumerates every history of <= 3 (quick) / 4 (thorough) calls x {with, without monitor} x {ok, empty-graph panic, malformed-edge panic} together with the delivery the model predicts; the driver replays each on the real Layout with a recording monitor per call and logs receivers and the package globals after every call; MonitorTrace.tla accepts the trace only if Monitor!CallOp explains every observation. Transparency: layouts with and without monitor must be bit-exactly equal. " + TRACE,
+            "The package globals are read through an overlay shim. Histories are sequential (concurrency is C15).", "8/C18"),
+    "C19": ("TLC trace validation of geom.Shortest against the square-root-free geodesic criterion IsGeodesic (CorridorOps.tla), itself model-checked at small scope (Unique, NoShorterInside); corridors generated exhaustively by TLC from Corridor.tla",
+            "Every well-formed corridor of 1-3 (thorough: 4) rectangles on a 5-column grid x lattice/half-lattice start and end points, plus seeded random corridors of up to 12 rectangles, is run through the real geom.Shortest; TLC checks end-to-start order, exact containment (integer door-crossing test) and tautness, which in a simple polygon characterises the unique shortest path. The criterion is validated by TLC itself: exactly one candidate vertex sequence satisfies it for every corridor and end-point pair of the bounded model, and no inside sequence is provably shorter. " + TRACE,
+            "Integer coordinates (exact arithmetic); exhaustive below the bound, sampled beyond.", "8/C19"),
+    "C20": ("TLC model check of the FitSpline recursion (SplineFit.tla: tiling, termination), replay of recorded Fit/Split hook events through the same step function, fixed-point containment predicate on recorded control points, and RootsOK on polynomials built from their roots by TLC (Solve.tla)",
+            "Fit: for every C19 corridor whose path has >= 3 points the recursion events (hook) must replay through SplineFit!FitStep and tile the path, pieces must start/end at path points and join bit-exactly, and 65 fixed-point samples per piece must lie within the corridor grown by 0.05. Solve: 2578 polynomials generated by TLC from chosen roots (simple, double, triple, complex pairs, leading coefficients around the solver's epsilon); exact rational distances measured by the driver are judged by RootsOK with multiplicity-aware tolerances. " + TRACE,
+            "Containment is sampled (65 points per piece, +0.005 rounding slack); numeric tolerances are spec constants. Known findings: repeated roots and near-epsilon leading coefficients of the root finder (explicit input lists).", "8/C20"),
     "C17": ("TLC trace validation against the history invariant ScaleEquivariant (bit-exact equality after dividing by the scale)",
             "Each case is run at scale 1 (3x) and at scales 2^k, k in -3..6; the driver divides the output by 2^k and TLC requires bit-exact equality of every coordinate and route point plus equal order and flags. " + TRACE,
             "Positioners and routers as stated by the property; judged only when the reference is stable.", "8/C17"),
